@@ -1591,6 +1591,173 @@ func ruleKindTable(p *Program, r *Reporter) {
 		return true
 	})
 	r.Check(orderOK, "slice elements are converted in index order", p.Pos(sliceConv.Pos()), "for i := 0; i < len; i++ with append", "the slice is not walked from index 0 upwards: the array's order differs from the slice's")
+	kindTableMembers(p, r, conv)
+}
+
+// kindTableMembers: a member of a host container (a slice element, a map value,
+// a map key) that is handed to the kind switch has been taken out of its
+// interface first.  The element type of []interface{} and map[…]interface{} —
+// what decoded JSON consists of — has kind Interface, which the kind switch
+// has no case for: handed over as it is, every nested array, object and
+// number of such a container arrives as null.
+func kindTableMembers(p *Program, r *Reporter, conv *ssa.Function) {
+	// does the kind switch itself look inside interfaces?
+	handlesIface := false
+	for _, b := range conv.Blocks {
+		for _, ins := range b.Instrs {
+			if bo, ok := ins.(*ssa.BinOp); ok && bo.Op == token.EQL {
+				for _, e := range []ssa.Value{bo.X, bo.Y} {
+					if k, ok := e.(*ssa.Const); ok && isStdNamed(k.Type(), "reflect", "Kind") {
+						if n, ok := constInt(k); ok && n == 20 { // reflect.Interface
+							handlesIface = true
+						}
+					}
+				}
+			}
+		}
+	}
+	// unwrapper: reflect.Value → reflect.Value, returns Elem() of its argument
+	// where the kind is Interface
+	isUnwrapper := func(f *ssa.Function) bool {
+		if f == nil || len(f.Blocks) == 0 || len(f.Params) != 1 || !isStdNamed(f.Params[0].Type(), "reflect", "Value") {
+			return false
+		}
+		rs := sigResults(f)
+		if len(rs) != 1 || !isStdNamed(rs[0], "reflect", "Value") {
+			return false
+		}
+		for _, b := range f.Blocks {
+			for _, ins := range b.Instrs {
+				if c, ok := ins.(*ssa.Call); ok && c.Call.StaticCallee() != nil && c.Call.StaticCallee().String() == "(reflect.Value).Elem" {
+					return true
+				}
+			}
+		}
+		return false
+	}
+	// origin of a reflect.Value: "concrete", "member:<what>", "field", "unknown"
+	var origin func(v ssa.Value, depth int, seen map[ssa.Value]bool) []string
+	origin = func(v ssa.Value, depth int, seen map[ssa.Value]bool) []string {
+		if depth > 10 || seen[v] {
+			return nil
+		}
+		seen[v] = true
+		switch x := v.(type) {
+		case *ssa.Call:
+			cal := x.Call.StaticCallee()
+			if cal == nil {
+				return []string{"unknown"}
+			}
+			switch cal.String() {
+			case "reflect.ValueOf":
+				return []string{"concrete"}
+			case "reflect.Indirect":
+				return origin(x.Call.Args[0], depth+1, seen)
+			case "(reflect.Value).Elem":
+				return []string{"concrete"}
+			case "(reflect.Value).Index":
+				return []string{"member:an element of a slice"}
+			case "(reflect.Value).MapIndex":
+				return []string{"member:a value of a map"}
+			case "(reflect.Value).Field", "(reflect.Value).FieldByName", "(reflect.Value).FieldByIndex":
+				return []string{"field"}
+			}
+			if isUnwrapper(cal) {
+				return []string{"concrete"}
+			}
+			if fnPkg(cal) != nil && IsLibPath(fnPkg(cal).Pkg.Path()) && len(cal.Blocks) > 0 {
+				var out []string
+				for _, b := range cal.Blocks {
+					if ret, ok := terminator(b).(*ssa.Return); ok && len(ret.Results) == 1 {
+						out = append(out, origin(ret.Results[0], depth+1, seen)...)
+					}
+				}
+				return out
+			}
+			return []string{"unknown"}
+		case *ssa.Phi:
+			var out []string
+			for _, e := range x.Edges {
+				out = append(out, origin(e, depth+1, seen)...)
+			}
+			return out
+		case *ssa.Parameter:
+			return []string{"concrete"} // the callers' business: their arguments are judged where they call
+		case *ssa.UnOp:
+			// a load: an element of the slice MapKeys() returned, or a local
+			if x.Op == token.MUL {
+				if ia, ok := x.X.(*ssa.IndexAddr); ok {
+					for _, o := range origins(ia.X) {
+						if c, ok := o.(*ssa.Call); ok && c.Call.StaticCallee() != nil {
+							if c.Call.StaticCallee().String() == "(reflect.Value).MapKeys" {
+								return []string{"member:a key of a map"}
+							}
+							// a helper that returns the keys (sorted)
+							if cal := c.Call.StaticCallee(); fnPkg(cal) != nil && IsLibPath(fnPkg(cal).Pkg.Path()) {
+								for _, b := range cal.Blocks {
+									for _, ins := range b.Instrs {
+										if c2, ok := ins.(*ssa.Call); ok && c2.Call.StaticCallee() != nil && c2.Call.StaticCallee().String() == "(reflect.Value).MapKeys" {
+											return []string{"member:a key of a map"}
+										}
+									}
+								}
+							}
+						}
+					}
+					return []string{"unknown"}
+				}
+				if al, ok := x.X.(*ssa.Alloc); ok {
+					var out []string
+					for _, ref := range *al.Referrers() {
+						if st, ok := ref.(*ssa.Store); ok && st.Addr == ssa.Value(al) {
+							out = append(out, origin(st.Val, depth+1, seen)...)
+						}
+					}
+					return out
+				}
+			}
+			return []string{"unknown"}
+		case *ssa.Extract:
+			// the key / value of a range over MapKeys(): next(iter)
+			return []string{"unknown"}
+		}
+		return []string{"unknown"}
+	}
+	nth := map[string]int{}
+	for _, fn := range p.LibFns {
+		if fnPkg(fn).Pkg.Path() != Mod+"/vm" {
+			continue
+		}
+		for _, c := range callsTo(fn, conv) {
+			cc := c.Common()
+			if len(cc.Args) < 2 {
+				continue
+			}
+			arg := cc.Args[len(cc.Args)-1]
+			os := origin(arg, 0, map[ssa.Value]bool{})
+			nth[p.FnName(fn)]++
+			key := fmt.Sprintf("%s/value %d handed to the kind switch is not still inside an interface", p.FnName(fn), nth[p.FnName(fn)])
+			member, unknown := "", false
+			for _, o := range os {
+				if strings.HasPrefix(o, "member:") {
+					member = strings.TrimPrefix(o, "member:")
+				}
+				if o == "unknown" {
+					unknown = true
+				}
+			}
+			switch {
+			case handlesIface:
+				r.OkNT(key, p.Pos(c.Pos()), "the kind switch has a case for Interface")
+			case member != "":
+				r.Fail(key, p.Pos(c.Pos()), member+" is handed to the kind switch as reflection gave it: in a []interface{} or map[…]interface{} — a decoded JSON document — its kind is Interface, for which the switch has no case, so nested arrays, objects and numbers arrive as null (reflect.ValueOf(x.Interface()) or Elem() takes the value out first)")
+			case unknown || len(os) == 0:
+				r.Undecided(key, p.Pos(c.Pos()), "cannot tell where the value handed to the kind switch comes from")
+			default:
+				r.OkNT(key, p.Pos(c.Pos()), "reflect.ValueOf of a value, an unwrapped member, or a struct field")
+			}
+		}
+	}
 }
 
 // ---------------------------------------------------------------------------
@@ -2177,15 +2344,114 @@ func ruleLenKind(p *Program, r *Reporter) {
 	})
 	r.Check(strings.Contains(got["Array"], "len(") && strings.Contains(got["Array"], ".Elements)"), "len of an array counts its elements", p.Pos(fn.Pos()), got["Array"], "len() of an array is not len(Elements): "+got["Array"])
 	r.Check(strings.Contains(got["Hash"], "len(") && strings.Contains(got["Hash"], ".Pairs)"), "len of a hash counts its pairs", p.Pos(fn.Pos()), got["Hash"], "len() of a hash is not len(Pairs): "+got["Hash"])
-	runes := false
-	for _, b := range fn.Blocks {
-		for _, ins := range b.Instrs {
-			if c, ok := ins.(*ssa.Call); ok && c.Call.StaticCallee() != nil && c.Call.StaticCallee().String() == "unicode/utf8.RuneCountInString" {
-				runes = true
+	// every count the built-in returns: what is counted?  Bytes of a string are
+	// never the answer (a regexp, or any text with a non-ASCII character, has
+	// more bytes than characters)
+	var fns []*ssa.Function
+	seenFn := map[*ssa.Function]bool{}
+	var collect func(f *ssa.Function, depth int)
+	collect = func(f *ssa.Function, depth int) {
+		if f == nil || seenFn[f] || depth > 2 || len(f.Blocks) == 0 || fnPkg(f) == nil || !IsLibPath(fnPkg(f).Pkg.Path()) {
+			return
+		}
+		seenFn[f] = true
+		fns = append(fns, f)
+		for _, b := range f.Blocks {
+			for _, ins := range b.Instrs {
+				if c, ok := ins.(*ssa.Call); ok && c.Call.StaticCallee() != nil && c.Call.StaticCallee().Signature.Recv() == nil {
+					collect(c.Call.StaticCallee(), depth+1)
+				}
 			}
 		}
 	}
-	r.Check(runes, "len of anything else counts characters", p.Pos(fn.Pos()), "utf8.RuneCountInString of the printed form", "len() of a string does not count runes (a byte count differs for non-ASCII text)")
+	collect(fn, 0)
+	runes, bytesAt, unknown := 0, token.NoPos, token.NoPos
+	var classify func(v ssa.Value, depth int)
+	classify = func(v ssa.Value, depth int) {
+		if depth > 8 {
+			unknown = v.Pos()
+			return
+		}
+		switch x := v.(type) {
+		case *ssa.Convert:
+			classify(x.X, depth+1)
+		case *ssa.ChangeType:
+			classify(x.X, depth+1)
+		case *ssa.Phi:
+			for _, e := range x.Edges {
+				classify(e, depth+1)
+			}
+		case *ssa.Const:
+		case *ssa.Call:
+			if _, ok := isBuiltinCall(x, "len"); ok {
+				switch t := x.Call.Args[0].Type().Underlying().(type) {
+				case *types.Basic:
+					if t.Info()&types.IsString != 0 {
+						bytesAt = x.Pos()
+					}
+				case *types.Slice:
+					if b, ok := t.Elem().Underlying().(*types.Basic); ok && b.Kind() == types.Uint8 {
+						bytesAt = x.Pos()
+					} else if ok && b.Kind() == types.Int32 {
+						runes++ // len([]rune(s))
+					}
+				}
+				return
+			}
+			if cal := x.Call.StaticCallee(); cal != nil {
+				switch cal.String() {
+				case "unicode/utf8.RuneCountInString", "unicode/utf8.RuneCount":
+					runes++
+					return
+				}
+				if seenFn[cal] {
+					for _, b := range cal.Blocks {
+						if ret, ok := terminator(b).(*ssa.Return); ok && len(ret.Results) == 1 {
+							classify(ret.Results[0], depth+1)
+						}
+					}
+					return
+				}
+			}
+			unknown = x.Pos()
+		case *ssa.BinOp:
+			classify(x.X, depth+1)
+			classify(x.Y, depth+1)
+		default:
+			unknown = v.Pos()
+		}
+	}
+	counts := 0
+	for _, f := range fns {
+		for _, b := range f.Blocks {
+			for _, ins := range b.Instrs {
+				st, ok := ins.(*ssa.Store)
+				if !ok {
+					continue
+				}
+				fa, ok := st.Addr.(*ssa.FieldAddr)
+				if !ok || objectStructName(fa.X.Type()) != "Integer" {
+					continue
+				}
+				if _, fname, _ := fieldOf(fa); fname != "Value" {
+					continue
+				}
+				counts++
+				classify(st.Val, 0)
+			}
+		}
+	}
+	key := "len of anything else counts characters"
+	switch {
+	case bytesAt.IsValid():
+		r.Fail(key, p.Pos(bytesAt), "len() returns the number of bytes of a string (Go's len of a string or of its bytes): for text with a character outside ASCII — a string, but also the printed form of a regexp — that is more than the number of characters")
+	case counts == 0 || runes == 0:
+		r.Fail(key, p.Pos(fn.Pos()), "len() of a string does not count runes (a byte count differs for non-ASCII text)")
+	case unknown.IsValid():
+		r.Undecided(key, p.Pos(unknown), "a count returned by len() is computed in a way this rule does not know")
+	default:
+		r.OkNT(key, p.Pos(fn.Pos()), fmt.Sprintf("%d count(s) returned; text is counted by utf8.RuneCountInString / len([]rune) only", counts))
+	}
 }
 
 // ---------------------------------------------------------------------------
